@@ -65,6 +65,9 @@ package bytes
 //@ pred (bks *Blocks) hint() = forall(x, 0, bks.freeIdx, x % bks.ss() < bks.blkSize ==> sbyte(bks.bts, x) == 255)
 //@ pred (bks *Blocks) wf() = bks.geom() && bks.hint() && (bks.freeIdx < bks.segments * bks.ss() ==> bks.freeIdx % bks.ss() < bks.blkSize)
 
+// the free hint is shared mutable state of the allocator: every access must be under bks.lock
+//@ monitor bks Blocks lock guards freeIdx
+
 //@ func GetBlocksInSegment(blkSize int) int
 //@   props C17
 //@   ensures r0 == 0 - 1 || (r0 == blkSize * 8 + 1 && 1 <= blkSize && blkSize <= 1<<27)
